@@ -383,7 +383,7 @@ def check_C12(tier):
     # a joined file of 34 lines (with non-rows among them): every line of it must reach the join
     engine_run(c, "long-joined-file", "JoinMenu", lines="LinesJ", maxlines=2, maxfiles=1, joinsets="JoinSetsLong", tdefs=("plain",))
     # the process itself: input files in command-line order, FROM t::'file' and --stdin replacing them, a file that cannot be opened, statistics
-    cli_run(c, "files", ["all", "count", "limit1", "from", "frommissing"], ["ok"], ["json"], 3 if t else 2, fileids=("fa", "fb", "fc", "fe", "missing") if t else ("fa", "fb", "fe", "missing"))
+    cli_run(c, "files", ["all", "count", "limit1", "limit2", "from", "frommissing"], ["ok"], ["json"], 3 if t else 2, fileids=("fa", "fb", "fc", "fe", "missing") if t else ("fa", "fb", "fe", "missing"))
     laws_trace(c, 2 if t else 1, 300 if t else 100)
     c.rule = ("TLC enumerates every byte content up to MaxLen over {x, LF, CR, a byte that is not UTF-8, U+00E9} and every cut into 1..MaxFiles files; each case is written to real files "
               "(x also expanded to runs of 8191/8192/8193 bytes around the BufReader capacity for every 50th case) and read by FileExecutor (SELECT x, COUNT(*), total_lines) and by the join loader. "
@@ -415,7 +415,7 @@ def check_C17(tier):
         rep = vh_replay("printer", r.replay_path, "printer-two", env_extra={"TZ": "UTC"})
         c.add_report(rep, "OutputPrinter vs Printer.tla (replay)")
     # the records as the process prints them on stdout in every --format (header once, one record per line, statistics line last)
-    cli_run(c, "formats", ["all", "count", "second", "limit1"], ["ok", "two"], ["text", "json", "csv"], 2, sample=None if t else 1500)
+    cli_run(c, "formats", ["all", "count", "second", "limit1", "limit2"], ["ok", "two"], ["text", "json", "csv"], 2, sample=None if t else 1500)
     # end to end: rows produced by the engine and printed by FileExecutor as JSON (Engine.tla replays decode every record)
     engine_run(c, "print-e2e", "SelectMenu", lines="Lines3", maxlines=2, maxfiles=1, tdefs=("plain",))
     c.rule = ("TLC enumerates sequences of print() calls (0-3 rows x 1-2 columns, single / multi) x the three formats over a boundary value universe "
@@ -639,7 +639,7 @@ def check_C09(tier):
     expect_holds(r, "Extract (C09)"); c.add_tlc(r)
     c.add_report(vh_replay("extract", r.replay_path, "extract-c09", env_extra={"TZ": "UTC"}), "TableDefinition::extract (regex / split) vs Extract.tla")
     # every kind of invocation of the process ends with the modelled exit status and output: no panic, no signal
-    cli_run(c, "total", ["all", "count", "limit1", "from", "frommissing", "parsebad", "notable", "create", "second"], ["ok", "bad", "two", "none"], ["text", "json", "csv"], 1,
+    cli_run(c, "total", ["all", "count", "limit1", "limit2", "from", "frommissing", "parsebad", "notable", "create", "second"], ["ok", "bad", "two", "none"], ["text", "json", "csv"], 1,
             sample=None if t else 800)
     # arbitrary bytes through the executor in three formats; the CLI in child processes under TZs with DST gaps / overlaps
     trace_check(c, "total", "Trace_Total", 2500 if t else 600, "total", "byte soups and TZ runs (outcome classes)", rounds=3 if t else 1,
